@@ -198,6 +198,13 @@ class C05(Prop):
             planes.append(float(g.uniform(0, 1)) * L)
         if rng.chance(g, 0.3):
             planes.append(near(g, L, L))
+        ga = S('above')
+        if rng.chance(ga, 0.35):
+            # a requested plane a hair (or a lot) above the outlet: the
+            # reader must drop it, the mesh still ends exactly at L
+            planes.append(L + float(rng.choice(
+                ga, [1e-13, 1e-12, 1e-11, 1e-9, 1e-8, 1e-7, 2e-7, 4e-7, 1e-6,
+                     1e-3, 0.5 * L])))
         spec['axial_plane'] = sorted(set(planes))
         return {'property': 'C05', 'seed': int(seed), 'kind': 'full',
                 'spec': spec,
